@@ -140,6 +140,34 @@ func stWriteThenRemoveParent(dir, name string) modelStep {
 		return nil
 	}}
 }
+func stWriteAttrs(name, content string, m os.FileMode, sec int64) modelStep {
+	return modelStep{fmt.Sprintf("write %q (%d bytes); chmod %o; chtimes %d", name, len(content), m, sec), func(fs afero.Fs) error {
+		if err := stWrite(name, content).run(fs); err != nil {
+			return err
+		}
+		if err := fs.Chmod(name, m); err != nil {
+			return err
+		}
+		return fs.Chtimes(name, time.Unix(sec, 0), time.Unix(sec, 0))
+	}}
+}
+func stMkdirMode(name string, m os.FileMode) modelStep {
+	return modelStep{fmt.Sprintf("mkdir %q; chmod %o", name, m), func(fs afero.Fs) error {
+		if err := fs.Mkdir(name, 0o755); err != nil {
+			return err
+		}
+		return fs.Chmod(name, m)
+	}}
+}
+func stOpen(name string, flag int, flagName string) modelStep {
+	return modelStep{fmt.Sprintf("open %q %s; close", name, flagName), func(fs afero.Fs) error {
+		f, err := fs.OpenFile(name, flag, 0o644)
+		if err != nil {
+			return err
+		}
+		return f.Close()
+	}}
+}
 func stChtimes(name string, sec int64) modelStep {
 	return modelStep{fmt.Sprintf("chtimes %q %d", name, sec), func(fs afero.Fs) error { return fs.Chtimes(name, time.Unix(sec, 0), time.Unix(sec, 0)) }}
 }
@@ -149,6 +177,7 @@ func stChmod(name string, m os.FileMode) modelStep {
 
 func modelTree(fs afero.Fs, withContent bool, withAttrs ...bool) (map[string]string, error) {
 	attrs := len(withAttrs) > 0 && withAttrs[0]
+	dirTimes := !(len(withAttrs) > 1 && withAttrs[1]) // second flag: leave directory times out (the OS bumps them on child changes)
 	out := map[string]string{}
 	var walk func(dir string) error
 	walk = func(dir string) error {
@@ -174,8 +203,10 @@ func modelTree(fs afero.Fs, withContent bool, withAttrs ...bool) (map[string]str
 			}
 			if fi.IsDir() {
 				out[p] = "dir"
-				if attrs {
+				if attrs && dirTimes {
 					out[p] = fmt.Sprintf("dir perm=%o mtime=%d", st.Mode().Perm(), st.ModTime().Unix())
+				} else if attrs {
+					out[p] = fmt.Sprintf("dir perm=%o", st.Mode().Perm())
 				}
 				if err := walk(p); err != nil {
 					return err
@@ -273,8 +304,36 @@ func modelHistories() map[string][]modelStep {
 			stMkdirAll("/d/d/d"), stWrite("/d/d/d/d", "deep"), stMkdirAll("/a/x/a"), stWrite("/a/x/a/y", "y"), stWrite("/a/y", "top"),
 			stRemove("/a/x/a/y"), stRename("/d/d", "/d/e"),
 		},
+		"open-flags": func() []modelStep {
+			steps := []modelStep{stMkdir("/dir"), stWrite("/file", "content"), stWrite("/dir/inner", "inner")}
+			flags := []struct {
+				f int
+				n string
+			}{{os.O_RDONLY, "O_RDONLY"}, {os.O_WRONLY, "O_WRONLY"}, {os.O_RDWR, "O_RDWR"}, {os.O_RDWR | os.O_CREATE, "O_RDWR|O_CREATE"},
+				{os.O_WRONLY | os.O_CREATE | os.O_EXCL, "O_WRONLY|O_CREATE|O_EXCL"}, {os.O_WRONLY | os.O_TRUNC, "O_WRONLY|O_TRUNC"},
+				{os.O_WRONLY | os.O_CREATE | os.O_TRUNC, "O_WRONLY|O_CREATE|O_TRUNC"}, {os.O_WRONLY | os.O_APPEND, "O_WRONLY|O_APPEND"}}
+			for i, fl := range flags {
+				for _, target := range []string{"/file", "/dir", fmt.Sprintf("/missing%d", i), "/file/below", "/nodir/x", "/dir/inner"} {
+					steps = append(steps, stOpen(target, fl.f, fl.n))
+				}
+				steps = append(steps, stWrite("/file", "content"), stWrite("/dir/inner", "inner")) // restore what O_TRUNC emptied
+			}
+			return steps
+		}(),
 		"overwrite-sizes": {
 			stWrite("/s", big), stWrite("/s", "short"), stWrite("/s", ""), stWrite("/s", big+big), stWrite("/t", ""), stRename("/t", "/s"),
+		},
+	}
+}
+
+// modelAttrHistories: every entry gets explicit permissions and times right after it is created, so that permission bits
+// and file times can be compared with the reference as well (directory times are left out).
+func modelAttrHistories() map[string][]modelStep {
+	return map[string][]modelStep{
+		"attributes-vs-reference": {
+			stMkdirMode("/d", 0o750), stWriteAttrs("/d/f", "content", 0o640, 1000000000), stWriteAttrs("/g", "", 0o600, 86400),
+			stChmod("/missing", 0o600), stChtimes("/missing", 5), stChmod("/d/f", 0o444), stChtimes("/d/f", 1300000000), stRename("/d/f", "/d/h"),
+			stChmod("/d", 0o700), stWriteAttrs("/d/h", "rewritten", 0o640, 1400000000), stRename("/d", "/e"), stChtimes("/g", 99999), stChmod("/e", 0o755),
 		},
 	}
 }
@@ -676,6 +735,13 @@ func TestVerifReplay_Model(t *testing.T) {
 		mode = "rebuild"
 	}
 	noRef := map[string]bool{}
+	withAttrs := map[string]bool{}
+	if mode == "tree" || mode == "rebuild" {
+		for n, h := range modelAttrHistories() {
+			hs[n] = h
+			withAttrs[n] = true
+		}
+	}
 	if mode == "rebuild" {
 		for n, h := range modelNoReference() {
 			hs[n] = h
@@ -705,11 +771,11 @@ func TestVerifReplay_Model(t *testing.T) {
 			if (e1 == nil) != (e2 == nil) && !modelKnownDifference(hn, st.name) {
 				t.Errorf("FAILING-INPUT: history %s, step %d (%s): stfs returned %v, the reference filesystem returned %v; history so far: %s", hn, i, st.name, e1, e2, strings.Join(done, "; "))
 			}
-			ta, err := modelTree(real, true)
+			ta, err := modelTree(real, true, withAttrs[hn], true)
 			if err != nil {
 				t.Errorf("FAILING-INPUT: history %s, after step %d (%s): walking stfs: %v", hn, i, st.name, err)
 			}
-			tb, _ := modelTree(ref, true)
+			tb, _ := modelTree(ref, true, withAttrs[hn], true)
 			if noRef[hn] {
 				tb = ta
 			}
